@@ -958,7 +958,12 @@ Fixpoint descend (E : env) (q : name) (t : N) (cd : bool) (zone : name) (pds : l
       | _ :: _ => fin (validate_answer E q t cd (fix_rcode resp) pds (Some zone))
       | [] =>
           match m_ns resp with
-          | [] => fin (Accept (mk_msg (m_id resp) q t (m_rcode resp) [] [] false))
+          | [] =>
+              (* a name error or an empty NOERROR without SOA / NSEC is still a denial: authority() judges it (since
+                 199ba21); any other rcode is an upstream failure handed back as it came *)
+              if (m_rcode resp =? RC_NXDOMAIN) || (m_rcode resp =? 0)
+              then fin (validate_negative E q t cd resp pds (Some zone))
+              else fin (Accept (mk_msg (m_id resp) q t (m_rcode resp) [] [] false))
           | ns =>
               match first_ns ns with
               | None => fin (validate_negative E q t cd resp pds (Some zone))
@@ -983,6 +988,83 @@ Fixpoint descend (E : env) (q : name) (t : N) (cd : bool) (zone : name) (pds : l
 (* Resolve(root = true): start at the deepest cached cut *)
 Definition resolve_from_cache (E : env) (q : name) (t : N) (cd : bool) (dc : dcache) (resps : list msg) : dresult :=
   let '(zone, pds) := search_cache dc q in descend E q t cd zone pds dc resps.
+
+(* ---- the descent with QNAME minimisation (RFC 7816) ----
+   Resolver.minimize: at [level] the question sent is the last level+1 labels of the name (same qtype) as long as that is
+   shorter than the name, level < cfg.QnameMinLevel, and minimisation is on for this walk.  What a minimised question does
+   in resolve / processAuthoritySection / processDelegation: an answer, an empty NOERROR, a bare non-success rcode, an
+   authority section with SOA or CNAME -> one label deeper at the SAME servers with the SAME DS set; a name error with SOA
+   goes through authority() first and ends the walk when it fails, or — RFC 8020 — as NXDOMAIN for the whole name when it
+   was authenticated and is eligible for aggressive use ([aggr], by message id: dnssec.EvaluateAggressiveNSEC/NSEC3 agree
+   with the rcode and no Opt-Out span is involved); a referral is judged against the FULL name; a referral shallower than
+   the level reached restarts the walk without minimisation (from the delegation cache, nothing filed for this referral). *)
+Definition minimise (qmin : nat) (nomin : bool) (level : nat) (q : name) : name * bool :=
+  if (qmin =? 0)%nat || nomin || (qmin <=? level)%nat || (length q <=? S level)%nat then (q, false)
+  else (lastn (S level) q, true).
+Definition requestion (m : msg) (q : name) : msg :=
+  mk_msg (m_id m) q (m_qtype m) (m_rcode m) (m_ans m) (m_ns m) (m_ad m).
+Fixpoint descend_m (E : env) (aggr : N -> bool) (qmin : nat) (q : name) (t : N) (cd nomin : bool) (level : nat)
+         (zone : name) (pds : list rr) (dc : dcache) (resps : list msg) : dresult :=
+  match resps with
+  | [] => mk_dresult (Fail (ELookup EL_TRANSCRIPT)) dc 0
+  | resp :: rest =>
+      let fin := fun o => mk_dresult o dc (length rest) in
+      let mq := fst (minimise qmin nomin level q) in
+      let minimized := snd (minimise qmin nomin level q) in
+      let retry := descend_m E aggr qmin q t cd nomin (S level) zone pds dc rest in
+      match m_ans resp with
+      | _ :: _ => if minimized then retry else fin (validate_answer E q t cd (fix_rcode resp) pds (Some zone))
+      | [] =>
+          match m_ns resp with
+          | [] => if minimized then retry else
+                  (* since 199ba21: a name error / empty NOERROR without SOA or NSEC is a denial, authority() judges it *)
+                  if (m_rcode resp =? RC_NXDOMAIN) || (m_rcode resp =? 0)
+                  then fin (validate_negative E q t cd resp pds (Some zone))
+                  else fin (Accept (mk_msg (m_id resp) q t (m_rcode resp) [] [] false))
+          | ns =>
+              let cut := if minimized && (m_rcode resp =? RC_NXDOMAIN) && has_soa ns
+                         then match validate_negative E mq t cd resp pds (Some zone) with
+                              | Fail e => Some (Fail e)
+                              | Accept r => if m_ad r && aggr (m_id resp) then Some (Accept (requestion r q)) else None
+                              end
+                         else None in
+              match cut with
+              | Some o => fin o
+              | None =>
+                  if minimized && existsb (fun r => (r_type r =? T_SOA) || (r_type r =? T_CNAME)) ns then retry else
+                  match first_ns ns with
+                  | None => fin (validate_negative E mq t cd resp pds (Some zone))
+                  | Some f =>
+                      if has_soa ns then fin (validate_negative E mq t cd (with_ns resp (filter_authority ns)) pds (Some zone))
+                      else if negb (valid_referral ns f zone q) then fin (Fail (ELookup EL_PARENT))
+                      else match validate_delegation E cd resp (r_owner f) pds (Some zone) with
+                           | Er e => fin (Fail e)
+                           | Ok ds =>
+                               let nlevel := length (r_owner f) in
+                               if (nlevel <? level)%nat then
+                                 if (0 <? qmin)%nat && negb nomin
+                                 then descend_m E aggr qmin q t cd true (length (fst (search_cache dc q)))
+                                                (fst (search_cache dc q)) (snd (search_cache dc q)) dc rest
+                                 else fin (Fail (ELookup EL_PARENT))
+                               else
+                               match dc_find dc (r_owner f) with
+                               | Some cached =>
+                                   descend_m E aggr qmin q t cd nomin (Nat.max (S level) nlevel) (r_owner f) cached dc rest
+                               | None =>
+                                   let dc' := if e_dnssec E && match e_anchors E with [] => true | _ => false end
+                                              then dc else (r_owner f, ds) :: dc in
+                                   descend_m E aggr qmin q t cd nomin nlevel (r_owner f) ds dc' rest
+                               end
+                           end
+                  end
+              end
+          end
+      end
+  end.
+(* Resolve(root = true, nomin): start at the deepest cached cut, at the level of that cut *)
+Definition resolve_from_cache_m (E : env) (aggr : N -> bool) (qmin : nat) (q : name) (t : N) (cd nomin : bool)
+           (dc : dcache) (resps : list msg) : dresult :=
+  descend_m E aggr qmin q t cd nomin (length (fst (search_cache dc q))) (fst (search_cache dc q)) (snd (search_cache dc q)) dc resps.
 
 (* ------------------------------------------------- AD toward the client *)
 Record creq := mk_creq { q_cd : bool; q_do : bool; q_ad : bool }.
